@@ -153,6 +153,19 @@ func BlockedMatching(substr string) []string {
 			strings.Contains(head, "sync.RWMutex") || strings.Contains(head, "sync.Cond.Wait") || strings.Contains(head, "semacquire")) {
 			continue
 		}
+		// a goroutine whose innermost frame (below runtime/sync) is the harness
+		// transport is waiting for the peer's next bytes, not stuck in the library
+		idle := false
+		for _, line := range strings.Split(g, "\n")[1:] {
+			if strings.HasPrefix(line, "\t") || strings.HasPrefix(line, "runtime.") || strings.HasPrefix(line, "sync.") || strings.HasPrefix(line, "internal/") || strings.HasPrefix(line, "time.") {
+				continue
+			}
+			idle = strings.HasPrefix(line, "mellium.im/xmpp/verifharness/internal/wire.(*Conn).")
+			break
+		}
+		if idle {
+			continue
+		}
 		lib := false
 		for _, line := range strings.Split(g, "\n") {
 			if strings.HasPrefix(line, "mellium.im/xmpp") && !strings.HasPrefix(line, "mellium.im/xmpp/verifharness") {
